@@ -5,6 +5,7 @@
 import CM.Driver.Codec
 import CM.Model.Bag
 import CM.Proofs.Check
+import CM.Proofs.BagTerm
 open Lean
 namespace CM
 
@@ -162,8 +163,15 @@ def opBag (j : Json) : P Json := do
                 | .done _ _ => Json.mkObj [("err", .str "internal")]
                 | .raised e _ => Json.mkObj [("err", errToJson e)]
                 | .next _ => Json.mkObj [("err", .str "internal")]
+              -- what `CM.C02.node_pipeline_value` predicts, when its hypotheses hold: the value of the node's term
+              let hyp := b.wfB && acyclicB b.edges && g.okB && g.callOKB env && impureFns.isEmpty
+              let dcfg : DenCfg := { env := env, callNo := 0, impureFns := impureFns, constFns := constFns }
+              let pred : Json := match (if hyp then b.term 64 o else none) with
+                | some t => if t.noMissingB then (match (t.den dcfg).v with | .ok v => Json.mkObj [("ok", valToJson v)] | .error e => Json.mkObj [("err", errToJson e)]) else .null
+                | none => .null
               pure (Json.mkObj [("r", r), ("sig", toJson g.signature), ("graph_ok", .bool g.okCB),
-                ("call_ok", .bool (g.callOKB env)), ("nodes", toJson g.nodes.length)])
+                ("call_ok", .bool (g.callOKB env)), ("nodes", toJson g.nodes.length), ("pipeline_hyp", .bool hyp),
+                ("predicted", pred)])
         | .virtualInput none => pure (Json.mkObj [("identity", .bool true)])
         | .discarded | .undefined => pure (Json.mkObj [("err", .str "FieldError")])
     | _ => throw s!"unknown bag step {t}"
